@@ -413,7 +413,8 @@ func checkWriter(c *Ctx, p *Program, spec writerSpec, maxRuns int) {
 	}
 	c.Check(len(out.undecided) == 0, "W-decided", key, pos, fmt.Sprintf("every input class of %s was executed symbolically to the end (%d classes)", spec.name, len(out.runs)),
 		fmt.Sprintf("%d input classes of %s could not be executed symbolically; first: %s", len(out.undecided), spec.name, firstUnd))
-	var badSize, badGrammar, badSem string
+	var badSize, badGrammar, badSem, badVal string
+	nFields := 0
 	for i := range out.runs {
 		r := &out.runs[i]
 		for n := range r.notes {
@@ -442,6 +443,11 @@ func checkWriter(c *Ctx, p *Program, spec writerSpec, maxRuns int) {
 		if sem := checkSemantics(rf); sem != "" && badSem == "" {
 			badSem = sem + cls
 		}
+		hv, nf := checkHeaderValues(rf)
+		nFields += nf
+		if hv != "" && badVal == "" {
+			badVal = hv + cls
+		}
 	}
 	for n := range notes {
 		c.Note(spec.name + ": " + n)
@@ -458,7 +464,7 @@ func checkWriter(c *Ctx, p *Program, spec writerSpec, maxRuns int) {
 		}
 		n := 0
 		for _, r := range out.runs {
-			if !r.err && n < 6 {
+			if !r.err && (n < 6 || (os.Getenv("VERIF_DEBUG_GREP") != "" && strings.Contains(streamString(r.stream), os.Getenv("VERIF_DEBUG_GREP")) && n < 12)) {
 				n++
 				fmt.Fprintf(os.Stderr, "  RUN [%s]\n      %s\n", describeAssume(r.assume, r.order), streamString(r.stream))
 			}
@@ -467,6 +473,9 @@ func checkWriter(c *Ctx, p *Program, spec writerSpec, maxRuns int) {
 	c.Check(succ > 0, "W-decided", key+":success", pos, fmt.Sprintf("%d input classes end in a written file", succ), "no input class reaches a successful return: nothing was checked")
 	c.Check(badSize == "", "W1-riff-size", key, pos, fmt.Sprintf("in all %d successful input classes the RIFF size field equals the number of bytes written after it", succ), badSize)
 	c.Check(badGrammar == "", "W2-chunk-grammar", key, pos, fmt.Sprintf("in all %d successful input classes the output is a sequence of complete chunks: every declared chunk size equals the payload written, odd payloads are followed by one zero pad byte, ANMF payloads are a 16-byte header plus complete sub-chunks", succ), badGrammar)
+	if nFields > 0 || badVal != "" {
+		c.Check(badVal == "", "W4-header-values", key, pos, fmt.Sprintf("in all %d successful input classes the VP8X canvas fields hold size-1 in 24 bits with the reserved bytes zero, the ANIM chunk holds the background colour and the loop count that was set, and every ANMF header holds offset/2, size-1, the frame's duration and a flags byte that is exactly bit 0 = dispose to background, bit 1 = do not blend for every combination of the declared dispose/blend constants (%d field instances)", succ, nFields), badVal)
+	}
 	c.Check(badSem == "", "W3-flags-order", key, pos, fmt.Sprintf("in all %d successful input classes the chunk order is legal, the VP8X flags announce exactly the ICCP/EXIF/XMP/ANIM chunks written (and ALPH implies the alpha flag), and metadata payloads are the caller's blobs unchanged", succ), badSem)
 }
 
@@ -556,6 +565,7 @@ func runC14(c *Ctx) {
 		anyScanShape(c, p)
 		c14NoAppendToInput(c, p)
 		c14CacheCoherence(c, p)
+		runReaderFields(c, p)
 		before := c.Count("R1-advance")
 		checkReaders(c, p, "mux", readerFile, max)
 		checkReaders(c, p, "internal/container", readerFile, max)
